@@ -213,6 +213,8 @@ def make_helpers(exe):
 
     def off(x):
         """element offset of a pointer view inside its object."""
+        if x._p.obj is None or not x._p.idx:
+            return exe.sem.idx_const(0)          # the NULL constant has no offset (callers guard with != NULL)
         i = x._p.idx[-1]
         return exe._ix(i)
 
@@ -228,6 +230,11 @@ def make_helpers(exe):
         if isinstance(p.ct, TArr):
             p = p.with_(idx=p.idx + (0,), ct=p.ct.of)
         return x._deref(exe._normalize(p).with_(idx=exe._normalize(p).idx[:-1] + (narrow_idx(exe, j),)))
+
+    def at(x, j):
+        """the struct element at ABSOLUTE index j of the array x points into (a view; use .field on it)."""
+        p = x._p
+        return PtrView(exe, x._st, p.with_(idx=p.idx[:-1] + (narrow_idx(exe, j),)))
 
     def tagat(x, j):
         """ghost label of element j (relative to the pointer view x)."""
@@ -294,10 +301,12 @@ def make_helpers(exe):
         return exe.tu.sizeof(exe.tu.ctype(tname))
 
     def same_obj(a, b):
-        return z3.BoolVal(a._p.obj is b._p.obj)
+        if isinstance(a, NullConst) or isinstance(b, NullConst):
+            return z3.BoolVal(False)
+        return z3.BoolVal(a._p.obj is b._p.obj and a._p.obj is not None)
 
     return dict(And=h_and, Or=h_or, Not=h_not, implies=h_implies, ite=h_ite, iff=h_iff, forall=forall,
-                exists=exists, u64=u64, is_pow2=is_pow2, arr=arr, off=off, NULL=NULL, pmod=pmod, elem=elem, tagat=tagat, imin=imin, imax=imax,
+                exists=exists, u64=u64, is_pow2=is_pow2, arr=arr, off=off, NULL=NULL, pmod=pmod, elem=elem, tagat=tagat, at=at, imin=imin, imax=imax,
                 iabs=iabs, lit=lit, sizeof=sizeof, num_of_int=num_of_int, byte_of_num=byte_of_num, bool_of_num=bool_of_num, num_zero=num_zero, trunc=trunc, isnan=isnan, fp=fp, real=real, same_obj=same_obj,
                 true=z3.BoolVal(True), false=z3.BoolVal(False), z3=z3, Select=z3.Select, Store=z3.Store,
                 fpLT=z3.fpLT, fpLEQ=z3.fpLEQ, fpGT=z3.fpGT, fpGEQ=z3.fpGEQ, fpEQ=z3.fpEQ, fpAbs=z3.fpAbs,
